@@ -34,7 +34,7 @@ Definition c12_holds (c : c12_case) : bool :=
   | BSCase mx rs n sc steps fin =>
       spec_holds (flat n) mx (intrs n) (sintrs sc) steps fin
   | NSCase wmax wsc wsteps wwire rmax n junk rsteps =>
-      spec_ns_holds wmax wsteps wwire rmax (flat n) junk (intrs n) rsteps
+      spec_ns_holds wmax (sintrs wsc) wsteps wwire rmax (flat n) junk (intrs n) rsteps
   end.
 
 (* no open finding is recorded for C12 *)
